@@ -262,6 +262,9 @@ func asciiLower(s string) string {
 
 // matches elements where the attribute named key satisifes the function f.
 func matchAttribute(n *html.Node, key string, f func(string) bool) bool {
+	if n.Type != html.ElementNode { // a doctype node also has "attributes"
+		return false
+	}
 	for _, a := range n.Attr {
 		if a.Key == key && f(a.Val) {
 			return true
